@@ -443,7 +443,10 @@ class Interp:
         if isinstance(op, ast.Div):
             if not self.ctx.branch(y != 0):
                 raise RaiseExc("ZeroDivisionError", node)
-            return FloatV(x / y)
+            r = FloatV(x / y)
+            if is_intlike(a) and is_intlike(b):
+                r.q = (to_int_term(a), to_int_term(b))
+            return r
         if isinstance(op, ast.Pow) and isinstance(b, int) and b >= 0:
             r = z3.RealVal(1)
             for _ in range(b):
@@ -815,6 +818,12 @@ class Interp:
             if v.i is not None:
                 return v.i
             self.ctx.float_ops.append((getattr(node, "lineno", None), "int(float)", v, None))
+            if v.q is not None:
+                # int(a / b) on integers, over the reals: truncated quotient (stated with integer division only)
+                a, b = v.q
+                aa, ab = z3.If(a >= 0, a, -a), z3.If(b >= 0, b, -b)
+                same = z3.Or(z3.And(a >= 0, b > 0), z3.And(a <= 0, b < 0))
+                return z3.If(same, aa / ab, -(aa / ab))
             x = v.t
             return z3.If(x >= 0, z3.ToInt(x), -z3.ToInt(-x))
         if isinstance(v, float):
